@@ -22,7 +22,14 @@ pub enum Reg {
     RecAttr,
     SpecAndRec,
 }
-pub const REGS: [Reg; 6] = [Reg::Nothing, Reg::SpecDerive, Reg::SpecAttr, Reg::RecDerive, Reg::RecAttr, Reg::SpecAndRec];
+pub const REGS: [Reg; 6] = [
+    Reg::Nothing,
+    Reg::SpecDerive,
+    Reg::SpecAttr,
+    Reg::RecDerive,
+    Reg::RecAttr,
+    Reg::SpecAndRec,
+];
 
 #[derive(Clone, Debug, Serialize, Deserialize)]
 pub struct DerCase {
@@ -38,7 +45,11 @@ pub struct DerCase {
 fn spec_of(c: &DerCase) -> SettingsSpec {
     let mut s = SettingsSpec::faithful();
     s.root = "root".into();
-    s.derives_all = if c.no_global_derive { vec![] } else { vec!["::g::Clone".into()] };
+    s.derives_all = if c.no_global_derive {
+        vec![]
+    } else {
+        vec!["::g::Clone".into()]
+    };
     // every attribute has the same attribute PATH (`m`) and differs in its arguments only: attributes are kept
     // apart by their whole token string, as `#[codec(crate = ..)]` next to `#[codec(dumb_trait_bound)]` must be
     s.attrs_all = vec!["#[m(g)]".into()];
@@ -54,8 +65,10 @@ fn spec_of(c: &DerCase) -> SettingsSpec {
             Reg::RecDerive => s.derives_for.push((p, vec![format!("::r::D{i}")], true)),
             Reg::RecAttr => s.attrs_for.push((p, vec![format!("#[m(r{i})]")], true)),
             Reg::SpecAndRec => {
-                s.derives_for.push((p.clone(), vec![format!("::s::D{i}")], false));
-                s.derives_for.push((p.clone(), vec![format!("::r::D{i}")], true));
+                s.derives_for
+                    .push((p.clone(), vec![format!("::s::D{i}")], false));
+                s.derives_for
+                    .push((p.clone(), vec![format!("::r::D{i}")], true));
                 s.attrs_for.push((p, vec![format!("#[m(r{i})]")], true));
             }
         }
@@ -71,7 +84,9 @@ fn mentions(em: &Emitted, item: &Item) -> BTreeSet<Vec<String>> {
             syn::Type::Tuple(t) => t.elems.iter().for_each(|e| walk(e, module, em, out)),
             syn::Type::Array(a) => walk(&a.elem, module, em, out),
             syn::Type::Path(p) => {
-                if let Some(syn::PathArguments::AngleBracketed(a)) = p.path.segments.last().map(|s| &s.arguments) {
+                if let Some(syn::PathArguments::AngleBracketed(a)) =
+                    p.path.segments.last().map(|s| &s.arguments)
+                {
                     for g in &a.args {
                         if let syn::GenericArgument::Type(t) = g {
                             walk(t, module, em, out);
@@ -79,7 +94,12 @@ fn mentions(em: &Emitted, item: &Item) -> BTreeSet<Vec<String>> {
                     }
                 }
                 if p.path.leading_colon.is_none() {
-                    let segs: Vec<String> = p.path.segments.iter().map(|s| s.ident.to_string()).collect();
+                    let segs: Vec<String> = p
+                        .path
+                        .segments
+                        .iter()
+                        .map(|s| s.ident.to_string())
+                        .collect();
                     if let Ok(target) = em.resolve_item(module, &segs) {
                         out.insert(target.path.clone());
                     }
@@ -103,7 +123,12 @@ fn mentions(em: &Emitted, item: &Item) -> BTreeSet<Vec<String>> {
 /// registry reachability (fields, variants, elements, compact, type parameters) from every entry with path `p`
 fn reg_reach(reg: &PortableRegistry, p: &str) -> BTreeSet<String> {
     let mut seen = BTreeSet::new();
-    let mut stack: Vec<u32> = reg.types.iter().filter(|t| t.ty.path.segments.join("::") == p).map(|t| t.id).collect();
+    let mut stack: Vec<u32> = reg
+        .types
+        .iter()
+        .filter(|t| t.ty.path.segments.join("::") == p)
+        .map(|t| t.id)
+        .collect();
     let mut out = BTreeSet::new();
     while let Some(i) = stack.pop() {
         if !seen.insert(i) {
@@ -120,7 +145,11 @@ fn reg_reach(reg: &PortableRegistry, p: &str) -> BTreeSet<String> {
         }
         match &t.type_def {
             TypeDef::Composite(c) => stack.extend(c.fields.iter().map(|f| f.ty.id)),
-            TypeDef::Variant(v) => stack.extend(v.variants.iter().flat_map(|v| v.fields.iter().map(|f| f.ty.id))),
+            TypeDef::Variant(v) => stack.extend(
+                v.variants
+                    .iter()
+                    .flat_map(|v| v.fields.iter().map(|f| f.ty.id)),
+            ),
             TypeDef::Sequence(s) => stack.push(s.type_param.id),
             TypeDef::Array(a) => stack.push(a.type_param.id),
             TypeDef::Tuple(t) => stack.extend(t.fields.iter().map(|f| f.id)),
@@ -139,11 +168,7 @@ fn single_uint_field(item: &Item) -> bool {
     let ItemKind::Struct(f) = &item.kind else {
         return false;
     };
-    let real: Vec<&FieldAst> = f
-        .list()
-        .iter()
-        .filter(|x| !ty_is_phantom(&x.ty))
-        .collect();
+    let real: Vec<&FieldAst> = f.list().iter().filter(|x| !ty_is_phantom(&x.ty)).collect();
     if real.len() != 1 {
         return false;
     }
@@ -151,7 +176,9 @@ fn single_uint_field(item: &Item) -> bool {
         let ty = &real[0].ty;
         squash(&quote::quote!(#ty).to_string())
     };
-    ["u8", "u16", "u32", "u64", "u128"].iter().any(|u| t == format!("::core::primitive::{u}"))
+    ["u8", "u16", "u32", "u64", "u128"]
+        .iter()
+        .any(|u| t == format!("::core::primitive::{u}"))
 }
 
 fn ty_is_phantom(ty: &syn::Type) -> bool {
@@ -169,7 +196,13 @@ pub fn check_case(c: &DerCase, ctx: &mut Ctx) {
     let tokens = match generate(&reg, &settings) {
         GenOutcome::Ok { tokens } => tokens,
         other => {
-            ctx.note(format!("generation does not succeed: {} (C10)", truncate(&format!("{other:?}"), 50)), 1);
+            ctx.note(
+                format!(
+                    "generation does not succeed: {} (C10)",
+                    truncate(&format!("{other:?}"), 50)
+                ),
+                1,
+            );
             return;
         }
     };
@@ -289,7 +322,9 @@ pub fn check_case(c: &DerCase, ctx: &mut Ctx) {
         if let Some(x) = extra_d.first() {
             ctx.violation(
                 format!("C08/extra-derive/{}", class(x)),
-                format!("{r} carries derive {x}, which no registration reaches (allowed: {may_d:?})"),
+                format!(
+                    "{r} carries derive {x}, which no registration reaches (allowed: {may_d:?})"
+                ),
                 replay(),
                 size,
             );
@@ -305,7 +340,9 @@ pub fn check_case(c: &DerCase, ctx: &mut Ctx) {
         if let Some(x) = extra_a.first() {
             ctx.violation(
                 format!("C08/extra-attribute/{}", class(x)),
-                format!("{r} carries attribute {x}, which no registration reaches (allowed: {may_a:?})"),
+                format!(
+                    "{r} carries attribute {x}, which no registration reaches (allowed: {may_a:?})"
+                ),
                 replay(),
                 size,
             );
